@@ -61,6 +61,15 @@ def restore_pinned(g):
         shutil.copy2(os.path.join(PIN_DIR, g), os.path.join(GEN_DIR, g))
 
 
+def write_analysis():
+    """supporting evidence for C16 only (never part of the verdict): stores that are not to locals / self"""
+    try:
+        rc, out = sh([sys.executable, os.path.join(VERIF, "tools", "write_analysis.py")], timeout=60)
+        return json.loads(out)
+    except Exception as e:
+        return {"error": str(e)}
+
+
 def sh(cmd, cwd=None, timeout=3600, env=None):
     p = subprocess.run(cmd, cwd=cwd, stdout=subprocess.PIPE, stderr=subprocess.STDOUT, timeout=timeout, env=env)
     return p.returncode, p.stdout.decode(errors="replace")
@@ -375,6 +384,7 @@ def main():
             "search_failures": len(res.failures), "known_finding_inputs": res.known,
             "broken_obligations": [{k: v for k, v in b.items() if k != "lines"} for b in broken],
             "tie_a_fallbacks": degraded,
+            "static_write_analysis": write_analysis() if prop == "C16" else None,
         },
         "assumptions": TRUSTED_BASE[3:],
         "wall_s": round(wall, 2), "violations": len(violations),
